@@ -107,6 +107,9 @@ pub fn f1_alphabet(max_esc: usize, thorough: bool) -> Vec<(String, Frame)> {
 
 pub fn f2_alphabet() -> Vec<(String, Frame)> {
     let mut v = Vec::new();
+    // a receiver status frame (type '4', same size as a long frame): part of the stream, never handed on
+    v.push(("type=4 plain".to_string(), frame(0x34, &[], 0, 1)));
+    v.push(("type=4 pair".to_string(), frame(0x34, &[10, 11], 1, 1)));
     for ty in [0x31u8, 0x32, 0x33] {
         let n = body_len(ty);
         v.push((format!("type={} plain", ty as char), frame(ty, &[], 0, 1)));
@@ -175,9 +178,10 @@ fn judge(st: &Stream, got: &Result<Vec<Vec<u8>>, String>, one_piece: Option<&Vec
         Ok(g) => g,
     };
     let total = st.wire.len();
+    let handed: Vec<&Frame> = st.frames.iter().filter(|f| f.plain[1] != 0x34).collect();
     for (i, g) in got.iter().enumerate() {
-        match st.frames.get(i) {
-            None => return Some(("extra-frame".into(), format!("yielded {} frames, the stream has {}; extra: {}", got.len(), st.frames.len(), hexs(g)))),
+        match handed.get(i) {
+            None => return Some(("extra-frame".into(), format!("yielded {} frames, the stream has {} to hand on; extra: {}", got.len(), handed.len(), hexs(g)))),
             Some(f) if f.plain != *g => {
                 let class = if g.len() != f.plain.len() {
                     "frame-wrong-length"
@@ -191,9 +195,9 @@ fn judge(st: &Stream, got: &Result<Vec<Vec<u8>>, String>, one_piece: Option<&Vec
             _ => {}
         }
     }
-    let must = st.starts.iter().filter(|s| **s + 23 < total).count();
+    let must = st.starts.iter().zip(st.frames.iter()).filter(|(s, f)| **s + 23 < total && f.plain[1] != 0x34).count();
     if got.len() < must {
-        return Some(("frame-lost".into(), format!("only {} frames handed on, {} of {} start before the last 23 bytes", got.len(), must, st.frames.len())));
+        return Some(("frame-lost".into(), format!("only {} frames handed on, {} of {} start before the last 23 bytes", got.len(), must, handed.len())));
     }
     if let Some(op) = one_piece {
         if op != got {
@@ -286,7 +290,7 @@ fn near_set(st: &Stream) -> Vec<bool> {
 
 pub fn run(ctx: &Ctx, rep: &Report) {
     rep.set_rule("streams F1.F2.tail over a 0x1A-placement alphabet x all chunkings with a bounded number of cuts; non-trivial = executions in which at least one cut falls inside a frame");
-    rep.assume("streams are well formed (the property's quantifier): every 0x1A after the type byte is doubled, no type-'4' frames, reads of at most 1024 bytes");
+    rep.assume("streams are well formed (the property's quantifier): every 0x1A after the type byte is doubled, reads of at most 1024 bytes; type-'4' status frames (23 bytes, as the framer sizes them) may occur and are never handed on");
     let thorough = ctx.thorough();
     let f1 = f1_alphabet(if thorough { 3 } else { 2 }, thorough);
     let f2 = f2_alphabet();
@@ -313,7 +317,7 @@ pub fn run(ctx: &Ctx, rep: &Report) {
         inside.fetch_add(ins, Ordering::Relaxed);
     });
     rep.part("F1 x F2, <= 2 cuts + dribble", total.load(Ordering::Relaxed), json!({"f1": f1.len(), "f2": f2.len(), "streams": n}));
-    // (b) triple cuts on the 12 x 12 sub-alphabet
+    // (b) triple cuts on the F2 x F2 sub-alphabet
     let before = total.load(Ordering::Relaxed);
     let m = f2.len() * f2.len();
     par_ranges(ctx.threads, m as u64, 1, |lo, hi| {
@@ -330,7 +334,7 @@ pub fn run(ctx: &Ctx, rep: &Report) {
         total.fetch_add(cnt, Ordering::Relaxed);
         inside.fetch_add(ins, Ordering::Relaxed);
     });
-    rep.part("12 x 12 sub-alphabet, <= 3 cuts", total.load(Ordering::Relaxed) - before, json!({"streams": m}));
+    rep.part("F2 x F2 sub-alphabet, <= 3 cuts", total.load(Ordering::Relaxed) - before, json!({"streams": m}));
     // (c) three-frame streams: F2 x F1(<=1 escape) x F2 with single cuts (non-initial parser states)
     let before = total.load(Ordering::Relaxed);
     let f1s: Vec<&(String, Frame)> = f1.iter().filter(|(n, _)| n.contains("esc=[]") || (n.contains("esc=[") && !n.contains(','))).collect();
@@ -426,7 +430,7 @@ pub fn run(ctx: &Ctx, rep: &Report) {
     rep.state((n + m + k + 1) as u64);
     rep.nontriv(inside.load(Ordering::Relaxed));
     rep.set_bound(&format!(
-        "{} F1 patterns (<= {} isolated 0x1A, runs of 4-6, all-0x1A) x {} F2 patterns: every single cut, {} pair of cuts, dribble; 144 streams with every triple of cuts{}; {} three-frame streams with every single cut; 1024 alignments of 1024-byte reads",
+        "{} F1 patterns (<= {} isolated 0x1A, runs of 4-6, all-0x1A) x {} F2 patterns: every single cut, {} pair of cuts, dribble; 196 streams with every triple of cuts{}; {} three-frame streams with every single cut; 1024 alignments of 1024-byte reads",
         f1.len(),
         if thorough { 3 } else { 2 },
         f2.len(),
